@@ -2,7 +2,7 @@
    Abstract-syntax level: the term the model of _get_mave_nt chooses, and - per metadata row - the terms whose printings the
    model of the to_csv loop body writes to mave_nt (widened to a PAM codon or not) and mave_nt_ref; the printing itself is tied
    to the code by the correspondence and decoded by an independent parser in the check (partial for the string level). *)
-From VV Require Import Model.Base Model.Pattern Model.Seq Model.Vcf Model.Mave Model.Gpo Model.ToCsv Spec.MaveSpec Proofs.MaveProofs Proofs.MaveRowProofs.
+From VV Require Import Model.Base Model.Pattern Model.Seq Model.Vcf Model.Mave Model.Gpo Model.ToCsv Model.PyStr Spec.MaveSpec Proofs.MaveProofs Proofs.MaveRowProofs Generated.KernelsMave Proofs.KernelMaveEquiv.
 
 (* for substitutions, deletions, insertions and deletion-insertions of any length at any offset: the variant the code
    prints, applied to a sequence carrying REF at that offset, yields the sequence with REF replaced by ALT; where a
@@ -60,6 +60,13 @@ Example C10_row_example :
   end.
 Proof. exact row_example. Qed.
 
+(* translation validation: mave_hgvs.get_mave_nt (with every helper it calls: f-strings, optional strings, the VariantType and
+   MAVEPrefix enums), translated from the source on every run, returns for all inputs the printing of the term the model chooses -
+   so the theorems above speak about the very strings the code writes *)
+Theorem C10_mave_strings_match_source : forall start ref_start vt ref alt,
+  k_get_mave_nt start ref_start vt (Some (string_of_dna ref)) (Some (string_of_dna alt)) = get_mave_nt start ref_start vt ref alt.
+Proof. exact k_get_mave_nt_eq. Qed.
+
 (* non-vacuity: the strings of DESIGN.md appendix A8 *)
 Example C10_examples :
   get_mave_nt 111 90 VSub (d "G") (d "A") = Ok "g.22G>A"%string /\
@@ -74,3 +81,4 @@ Print Assumptions C10_ins_flanks.
 Print Assumptions C10_row_mave_nt_decodes.
 Print Assumptions C10_widening_same_edit.
 Print Assumptions C10_row_mave_nt_ref_decodes.
+Print Assumptions C10_mave_strings_match_source.
